@@ -117,7 +117,36 @@ def correspond(ctx, scale):
                     fail(f'{name}:construct', repr(ex), dict(name=name))
                     return
                 nq = q.num_quantizers if hasattr(q, 'num_quantizers') else q.rvqs[0].num_quantizers
-                for mode in ('eval', 'dropout'):
+                # a HISTORY on this one instance: round trips interleaved with training steps, optimiser steps and a state_dict reload
+                for mode in ('eval', 'dropout', 'hist-train', 'eval', 'hist-opt', 'eval', 'hist-reload', 'eval', 'dropout'):
+                    if mode == 'hist-train':
+                        q.train()
+                        with torch.no_grad():
+                            for _ in range(2):
+                                q(torch.randn(*shapes(layout, dim, rng)))
+                        bump('history-ops')
+                        continue
+                    if mode == 'hist-opt':
+                        params = [p_ for p_ in q.parameters() if p_.requires_grad]
+                        if params:
+                            q.train()
+                            r_ = q(torch.randn(*shapes(layout, dim, rng)))
+                            tot = r_[0].sum() + sum(t_.sum() for t_ in r_[2:] if isinstance(t_, torch.Tensor) and t_.requires_grad)
+                            if tot.requires_grad:
+                                tot.backward()
+                                torch.optim.SGD(params, lr=0.1).step()
+                            for p_ in params:
+                                p_.grad = None
+                            bump('history-ops')
+                        continue
+                    if mode == 'hist-reload':
+                        other = mk(layout)
+                        other.train()
+                        with torch.no_grad():
+                            other(torch.randn(*shapes(layout, dim, rng)))
+                        q.load_state_dict(copy.deepcopy(other.state_dict()))
+                        bump('history-ops')
+                        continue
                     x = torch.randn(*shapes(layout, dim, rng))
                     q.train(mode == 'dropout')
                     kwargs = {}
